@@ -24,4 +24,14 @@ META = {
   "text": "The random part picks stream, configuration and schedule; the fault dimension (which request was the last one the target executed) is enumerated completely for that case, in both 'target crash' and 'tool stop' flavours, and every resulting two- or three-life history is judged against the reference sequence. Fault enumeration is the right level: crash points are finite per case and each is cheap.",
   "note": "Trusts the double's crash model (prefix of requests executed, open MULTI discarded) and the restart procedure transcribed from syncer.newOutput / RedisInput (UpdateCheckpoint, StartPoint, serve from the returned offset; 'none' = serve from the stream start, accepted only outside transactional mode).",
  },
+ "C09": {
+  "technique": "property-based testing (rapid) over transaction-heavy streams + exhaustive crash/stop-point enumeration per case; oracle = execution-group invariant on the double's log (one group per source transaction, complete, with its covering checkpoint)",
+  "text": "Same engine as C02 with a generator biased to transactions around the batch size; the judged invariant is atomic visibility: the double tags everything an EXEC runs with one group id, so 'part of a source transaction became visible' is directly observable at every enumerated crash/stop point and after every restart.",
+  "note": "Only transactional mode against a standalone double is generated (the property's scope). Alignment of executed commands with the reference sequence is taken from the resume offset; when alignment is lost C02 reports it and C09 stops judging that run.",
+ },
+ "C07": {
+  "technique": "property-based testing (rapid) over streams with idle gaps and restart chains; oracle = monotonicity/boundary invariant over the history of checkpoint offset writes observed at the double",
+  "text": "Generated idle periods (relative to the generated ticker periods, including keep-alive-long ones) and restart chains exercise ticker-, keep-alive- and shutdown-driven checkpoint flushes; the complete ordered history of stored offsets is checked against the reference command boundaries. Exploration: timing is generated, the scheduler is not owned.",
+  "note": "The initial 'none yet' marker (-1 written by start-up on an empty target) is tolerated exactly as the property states.",
+ },
 }
